@@ -19,6 +19,12 @@ def specs(ctx):
         s.append(sp)
         s.append(dict(sp, s3_fault=dict(idx=2, when='before')))
     s += sysrun.specs_nonthreaded_interrupt(ctx, sysrun.KINDS)
+    s += sysrun.specs_torn_state(ctx, sysrun.MULTIPART + sysrun.KINDS[::4], seeds=1 if not ctx.thorough() else 3)
+    # a source object whose close() returns a truthy value (nothing forbids it): a failing request must
+    # still fail the transfer
+    s += [sp for sp in sysrun.specs_faults(ctx, [dict(kind='upload', src='seekable_close_true', size=2),
+                                                 dict(kind='upload', src='seekable_close_true', size=10)], seeds=1, tag='closetrue')
+          if sp.get('s3_fault')]
     if ctx.thorough():
         # pairs of faults in the small scenarios
         for ts in sysrun.KINDS[:8]:
